@@ -60,6 +60,13 @@ def generate(rng, tier):
     for s in sv:
         ops.append({"t": round(rng.choice([0.01, 0.2, max(0.01, t_close - 0.5), max(0.01, t_close - 0.2)]), 6),
                     "op": "register", "h": "V", "svc": s})
+    if rng.random() < 0.3:
+        # the application also unregisters one of its services around the time it closes the instance (a component
+        # withdrawing its own service while the application shuts down)
+        for s_ in rng.sample(sv, rng.choice([1, 1, min(2, len(sv))])):
+            ops.append({"t": round(max(0.012, t_close + rng.choice([-0.3, -0.13, -0.05, -0.001, 0.0, 0.02, 0.1, 0.13, 0.2,
+                                                                    0.26])), 6),
+                        "op": "unregister", "h": "V", "name": s_["name"]})
     nb = rng.choice([0, 1, 2, 3])
     for i in range(nb):
         ops.append({"t": round(rng.choice([0.02, max(0.02, t_close - 0.08), max(0.02, t_close - 5.0), t_close - 0.001])
@@ -84,6 +91,9 @@ def generate(rng, tier):
         ops.append({"t": round(max(0.0003, t_close - rng.choice([0.4, 0.1, 0.02, 0.001])), 6), "op": "stall", "h": "V",
                     "dur": rng.choice([0.03, 0.15, 0.5, 1.2])})
     mode = "sync" if rng.random() < 0.25 else "async"
+    if mode == "async" and rng.random() < 0.2:
+        # a second async_close() overlapping the first (a signal handler and a finally block, say)
+        ops.append({"t": round(t_close + rng.choice([0.0, 0.001, 0.05, 0.126, 0.2, 0.3]), 6), "op": "close", "h": "V"})
     # traffic after the close
     horizon = t_close + rng.choice([5.0, 60.0, 7200.0])
     ta = t_close + 0.3
@@ -172,6 +182,15 @@ def execute(scenario, seed, overrides=None):
             e = w.spawn(h, "close", h.azc.async_close, None)
             st["entry"] = e
 
+        def op_close(op):
+            # whichever close request comes first is "the" close; a later, overlapping one must be a no-op
+            if st["t_call"] is None:
+                do_async_close()
+                return st["entry"]
+            return w.spawn(w.hosts["V"], "close-overlap", w.hosts["V"].azc.async_close, None)
+
+        drv.op_close = op_close
+
         if scenario["mode"] == "async" and scenario.get("close_step"):
             k = scenario["close_step"]
             stats["close_by_step"] += 1
@@ -193,7 +212,10 @@ def execute(scenario, seed, overrides=None):
                 # the application that calls close lives in the stalled process
                 await w.sleep_until(until - w.t0 + 2e-9)
             if scenario["mode"] == "async":
-                do_async_close()
+                if st["t_call"] is None:
+                    do_async_close()
+                else:
+                    w.spawn(w.hosts["V"], "close-overlap", w.hosts["V"].azc.async_close, None)
 
         async def phase2():
             await w.sleep_until(scenario["second_close"])
@@ -291,22 +313,30 @@ def _oracle(w, drv, sc, st, probe, stats, out):
     if pc:
         out.add("C17.listener-after-close", f"record-update listener called at {pc[0] - t0:.6f} after close returned at "
                 f"{t_ret - t0:.6f}")
-    # goodbyes for what was registered when close was called
+    # address records of a service that was unregistered through the API while another registered service used the same
+    # host name are exempt from goodbyes (C08 states the exemption); they may stay advertised for their TTL
+    unreg_names = {e["args"].lower() for e in w.api_log if e["op"] == "unregister" and e["host"] == "V"}
+    exempt = set()
+    for o in sc["ops"]:
+        if o["op"] == "register" and o.get("h") == "V" and o["svc"]["name"].lower() in unreg_names:
+            exempt |= {r.ident() for r in SvcRecords(o["svc"]).addrs}
+    # goodbyes for what was registered when close was called: every record three times on every socket
     for recs in st["registered"]:
         must = {r.ident() for r in [recs.ptr, recs.srv, recs.txt] + recs.addrs}
-        gb = []
+        if recs.name.lower() in unreg_names:
+            must -= exempt
+        per_sock = {}
         for tx in vtx:
             if tx.t + 1e-9 < st["t_call"] or not tx.multicast or tx.msg is None or not tx.msg.is_response:
                 continue
-            zero = {r.ident() for r in tx.msg.records() if r.ttl == 0}
-            if must <= zero:
-                gb.append(tx)
-        per_sock = {}
-        for tx in gb:
-            per_sock[tx.sock] = per_sock.get(tx.sock, 0) + 1
-        if not per_sock or min(per_sock.values()) < 3:
+            cnt = per_sock.setdefault(tx.sock, {})
+            for i in {r.ident() for r in tx.msg.records() if r.ttl == 0}:
+                cnt[i] = cnt.get(i, 0) + 1
+        short = sorted((sock, i) for sock, cnt in per_sock.items() for i in must if cnt.get(i, 0) < 3)
+        if not per_sock or short:
             out.add("C17.goodbye-missing", f"{recs.name}: registered when close was called at {st['t_call'] - t0:.6f} but "
-                    f"complete goodbyes seen per socket: {per_sock} (expected 3)", n=min(per_sock.values()) if per_sock else 0)
+                    f"fewer than 3 goodbyes for {short[:3] if per_sock else 'any record on any socket'}",
+                    n=min([per_sock[s_][i] if i in per_sock[s_] else 0 for s_, i in short], default=0))
     # whatever the instance advertised with a positive TTL has been withdrawn by the time close returns: the last
     # transmission of each of its records on every socket is a goodbye ("Registered services have been withdrawn with
     # goodbyes before the sockets close", whatever was in progress - in particular a registration that finished
@@ -316,7 +346,7 @@ def _oracle(w, drv, sc, st, probe, stats, out):
         if tx.t > t_ret or tx.msg is None or not tx.msg.is_response:
             continue
         for r in tx.msg.records():
-            if r.type == wire.T_NSEC:
+            if r.type == wire.T_NSEC or r.ident() in exempt:
                 continue
             if r.ttl > 0:
                 pos[r.ident()] = (tx.t, tx.sock, tx.multicast, r)
